@@ -622,6 +622,10 @@ impl Objective {
 
 impl fmt::Display for Objective {
     fn fmt(&self, f: &mut fmt::Formatter<'_>) -> fmt::Result {
+        // `solve` takes no expression in the grammar
+        if self.objective_type == OptimizationType::Satisfy {
+            return write!(f, "{}", self.objective_type);
+        }
         write!(f, "{} {}", self.objective_type, self.rhs)
     }
 }
